@@ -18,8 +18,8 @@ ASSUMPTIONS = ["peak scores within a sample are pairwise distinct so a predicted
                "fractional min_instance_peaks only where fraction*n_nodes is exactly an integer",
                "when a candidate pair has a NaN line score (coincident peaks) only one-to-one-ness and non-use of NaN matches are asserted, not optimality"]
 SHARDS = {"quick": 4, "thorough": 16}
-N = {"quick": 700, "thorough": 280000}
-BUDGET = {"quick": 110, "thorough": 1200}
+N = {"quick": 1400, "thorough": 1400000}
+BUDGET = {"quick": 110, "thorough": 600}
 TIMEOUT = {"quick": 600, "thorough": 3000}
 SELF_SHARDED = True
 KEY_COINCIDENT = "infeasible-assignment-on-coincident-src-dst-peaks"
